@@ -1652,6 +1652,8 @@ class SparseVector:
             index, = index.nonzero() if hasattr(index, 'nonzero') else np.nonzero(index)
         if ndim == 1:
             if vd == 1:
+                if len(index) != len(value):
+                    raise ValueError('shape mismatch between index and value')
                 for i, j in zip(index, value): 
                     if j: dct[i] = float(j)
                     elif i in dct: del dct[i]
@@ -1669,6 +1671,8 @@ class SparseVector:
         elif index.__class__ is slice:
             if index == open_slice:
                 if value is self: return
+                if vd == 1 and len(value) > self.size:
+                    raise ValueError('shape mismatch between arrays')
                 dct.clear()
                 if value.__class__ is SparseVector:
                     dct.update(value.dct)
